@@ -7,6 +7,7 @@
 package leanhelixterm
 
 import (
+	"bytes"
 	"fmt"
 	"github.com/orbs-network/lean-helix-go/services/interfaces"
 	"github.com/orbs-network/lean-helix-go/services/randomseed"
@@ -32,6 +33,10 @@ func (mp *ConsensusMessagesFilter) HandleConsensusMessage(message interfaces.Con
 
 	if expected, ok := expectedHeaderMessageType(message); ok && message.MessageType() != expected {
 		return errors.Errorf("Signed header of %T declares message type %s - ignoring message H=%d V=%d", message, message.MessageType(), message.BlockHeight(), message.View())
+	}
+
+	if !hasCanonicalSignedHeader(message) {
+		return errors.Errorf("Signed header of %T is not canonically encoded - ignoring message H=%d V=%d", message, message.BlockHeight(), message.View())
 	}
 
 	switch message := message.(type) {
@@ -80,4 +85,38 @@ func expectedHeaderMessageType(message interfaces.ConsensusMessage) (protocol.Me
 		return protocol.LEAN_HELIX_NEW_VIEW, true
 	}
 	return protocol.LEAN_HELIX_RESERVED, false
+}
+
+// Block proofs, prepared proofs and the votes inside a NEW_VIEW are built by re-encoding signed headers from
+// their fields. A signature made over any other encoding of the same fields (e.g. with trailing bytes) verifies
+// on receipt but not inside what is built from it, so such a message must not be counted.
+func hasCanonicalSignedHeader(message interfaces.ConsensusMessage) bool {
+	switch message := message.(type) {
+	case *interfaces.PreprepareMessage:
+		return isCanonicalBlockRef(message.Content().SignedHeader())
+	case *interfaces.PrepareMessage:
+		return isCanonicalBlockRef(message.Content().SignedHeader())
+	case *interfaces.CommitMessage:
+		return isCanonicalBlockRef(message.Content().SignedHeader())
+	case *interfaces.ViewChangeMessage:
+		reEncoded := interfaces.ExtractConfirmationsFromViewChangeMessages([]*interfaces.ViewChangeMessage{message})
+		return bytes.Equal(reEncoded[0].SignedHeader.Build().Raw(), message.Content().SignedHeader().Raw())
+	case *interfaces.NewViewMessage:
+		return isCanonicalBlockRef(message.Content().Message().SignedHeader())
+	}
+	return true
+}
+
+func isCanonicalBlockRef(blockRef *protocol.BlockRef) bool {
+	if blockRef == nil || len(blockRef.Raw()) == 0 { // absent: nothing was signed, the handlers reject it
+		return true
+	}
+	reEncoded := (&protocol.BlockRefBuilder{
+		MessageType: blockRef.MessageType(),
+		InstanceId:  blockRef.InstanceId(),
+		BlockHeight: blockRef.BlockHeight(),
+		View:        blockRef.View(),
+		BlockHash:   blockRef.BlockHash(),
+	}).Build()
+	return bytes.Equal(reEncoded.Raw(), blockRef.Raw())
 }
